@@ -465,7 +465,6 @@ func checkStoredReceipts(n *Node, blk *types.WorkObject, bi *BlockInfo, bloomFin
 		}
 	}
 	logIndex, withLogs := uint(0), 0
-	var cum uint64
 	for i, r := range rs {
 		tx := blk.Transactions()[i]
 		switch {
@@ -475,10 +474,7 @@ func checkStoredReceipts(n *Node, blk *types.WorkObject, bi *BlockInfo, bloomFin
 			return fmt.Sprintf("type: receipt %d has type %d, transaction %d", i, r.Type, tx.Type())
 		case r.BlockHash != bi.Hash || r.BlockNumber == nil || r.BlockNumber.Uint64() != bi.Number || r.TransactionIndex != uint(i):
 			return fmt.Sprintf("position: receipt %d says block %x #%v index %d", i, r.BlockHash.Bytes()[:4], r.BlockNumber, r.TransactionIndex)
-		case r.CumulativeGasUsed < cum:
-			return fmt.Sprintf("cumulative-gas: receipt %d cumulative gas %d below its predecessor's %d", i, r.CumulativeGasUsed, cum)
 		}
-		cum = r.CumulativeGasUsed
 		if len(r.Logs) > 0 {
 			withLogs++
 		}
